@@ -1,5 +1,6 @@
 (** Edit histories over the public API of PMTiles (add / remove / lookups / listings / save+reopen /
-    settings), as a state machine [step : pmtiles -> op -> pmtiles * out]. *)
+    open from bytes / write at a position / settings), as a state machine
+    [step : pmtiles -> op -> pmtiles * out]. *)
 Require Import PM.Base PM.Oracles PM.Params PM.Float PM.Header PM.Directory PM.Stream
                PM.TileManager PM.DirWriter PM.DirReader PM.Hilbert PM.Archive.
 Open Scope N_scope.
@@ -12,34 +13,46 @@ Inductive op :=
 | OList
 | OCount
 | OSave (asy : bool)                 (* to_writer into a fresh buffer, then from_bytes of it *)
+| OOpen (r : range) (b : bytes)      (* from_bytes_partially(b, r) replaces the archive *)
+| OWriteAt (asy : bool) (pos : N) (pre : bytes)   (* to_writer into a stream holding [pre], positioned at [pos] *)
 | OSetComp (c : compression)
 | OSetMeta (m : bytes)               (* canonical JSON object *)
 | OSetHdr (tty : tile_type) (tc : compression) (minz maxz cz : N) (c1 c2 c3 c4 c5 c6 : f64)
+| OGetHdr
 | OSnap.
 
 Inductive out :=
 | RUnit
-| RRes (ok : bool)                        (* add_tile: Ok / Err;  save: Ok / Err *)
+| RRes (ok : outcome unit)
 | RTile (r : outcome (option bytes))
 | RIds (l : list N)                       (* in the store's internal order: compare as sets *)
 | RCount (n : N)
-| RSnap (ids : list (N * tile)) (data : list (N * bytes)) (refs : list (N * list N))
-| RCrash.
+| RSaved (b : outcome bytes) (reopen : outcome unit)
+| RStream (r : outcome (bytes * N * list event))
+| RHdr (p : pmtiles)
+| RSnap (ids : list (N * tile)) (data : list (N * bytes)) (refs : list (N * list N)).
 
 Definition set_tm (p : pmtiles) (s : tm) : pmtiles :=
   mkPM (p_ttype p) (p_tcomp p) (p_icomp p) (p_minz p) (p_maxz p) (p_cz p)
        (p_min_lon p) (p_min_lat p) (p_max_lon p) (p_max_lat p) (p_clon p) (p_clat p) (p_meta p) s.
 
+Definition forget {A} (o : outcome A) : outcome unit :=
+  match o with Ok _ => Ok tt | Err e => Err e | Crash c => Crash c end.
+
 Section WithCtx.
   Context (cx : ctx).
+
+  (** an archive value that has been consumed ([to_writer] takes [self]) or could not be opened is
+      replaced by a fresh empty one *)
+  Definition fresh : pmtiles := pm_new None.
 
   Definition step (p : pmtiles) (o : op) : pmtiles * out :=
     match o with
     | OAdd id data =>
       match add_tile cx (p_tm p) id data with
-      | Ok s => (set_tm p s, RRes true)
-      | Err _ => (p, RRes false)
-      | Crash _ => (p, RCrash)
+      | Ok s => (set_tm p s, RRes (Ok tt))
+      | Err e => (p, RRes (Err e))
+      | Crash c => (p, RRes (Crash c))
       end
     | ORemove id => (set_tm p (snd (remove_tile (p_tm p) id)), RUnit)
     | OGet id => (p, RTile (get_tile (p_tm p) id))
@@ -50,13 +63,21 @@ Section WithCtx.
       match to_bytes cx asy p with
       | Ok b =>
         match from_reader cx b full_range with
-        | Ok p' => (p', RRes true)
-        | Err _ => (p, RRes false)
-        | Crash _ => (p, RCrash)
+        | Ok p' => (p', RSaved (Ok b) (Ok tt))
+        | Err e => (fresh, RSaved (Ok b) (Err e))
+        | Crash c => (fresh, RSaved (Ok b) (Crash c))
         end
-      | Err _ => (p, RRes false)
-      | Crash _ => (p, RCrash)
+      | Err e => (fresh, RSaved (Err e) (Ok tt))
+      | Crash c => (fresh, RSaved (Crash c) (Ok tt))
       end
+    | OOpen r b =>
+      match from_reader cx b r with
+      | Ok p' => (p', RRes (Ok tt))
+      | Err e => (fresh, RRes (Err e))
+      | Crash c => (fresh, RRes (Crash c))
+      end
+    | OWriteAt asy pos pre =>
+      (fresh, RStream (do st <- to_writer cx asy p (ws_new pre pos); Ok (ws_img st, ws_pos st, rev (ws_log st))))
     | OSetComp c =>
       (mkPM (p_ttype p) (p_tcomp p) c (p_minz p) (p_maxz p) (p_cz p)
             (p_min_lon p) (p_min_lat p) (p_max_lon p) (p_max_lat p) (p_clon p) (p_clat p) (p_meta p) (p_tm p), RUnit)
@@ -65,6 +86,7 @@ Section WithCtx.
             (p_min_lon p) (p_min_lat p) (p_max_lon p) (p_max_lat p) (p_clon p) (p_clat p) m (p_tm p), RUnit)
     | OSetHdr tty tc minz maxz cz c1 c2 c3 c4 c5 c6 =>
       (mkPM tty tc (p_icomp p) minz maxz cz c1 c2 c3 c4 c5 c6 (p_meta p) (p_tm p), RUnit)
+    | OGetHdr => (p, RHdr p)
     | OSnap => (p, RSnap (tile_by_id (p_tm p)) (data_by_hash (p_tm p)) (ids_by_hash (p_tm p)))
     end.
 
